@@ -14,7 +14,9 @@ PROP = "C16"
 MODULES = ["RuschmProofs.C16"]
 INTS = ["0", "1", "-1", "42", "-17", "32767", "-32768", "2147483647", "-2147483648", "(+ 2147483646 1)"]
 RATS = ["1/2", "-1/2", "22/7", "-7/3", "(/ 1 -2)", "(/ 6 4)", "2147483647/2", "1/2147483647", "(- 1/3 1/2)"]
-REALS = ["0.0", "-0.0", "1.5", "-2.5", "0.1", "1e10", "1e-10", "3.4e38", "1e-45", "16777216.0", "16777217.0", "2147483648.0",
+BOUNDARY_REALS = ["3.4028235e38", "-3.4028235e38", "3.4028233e38", "1.17549435e-38", "1.1754942e-38", "1e-45", "1.4e-45", "-1e-45",
+                  "16777215.0", "8388608.5", "0.30000001", "0.1", "0.2", "(+ 0.1 0.2)", "9.999999e-5", "1e-5", "123456790.0", "1e38", "9.9999997e37"]
+REALS = BOUNDARY_REALS + ["0.0", "-0.0", "1.5", "-2.5", "0.1", "1e10", "1e-10", "3.4e38", "1e-45", "16777216.0", "16777217.0", "2147483648.0",
          "(/ 1 3.0)", "(sqrt 2)", "1e21", "1e-7", "123456.789", "(+ 2147483647 1)", "(exact->inexact-missing)"]
 CHARS = ["#\\a", "#\\Z", "#\\0", "#\\space", "#\\newline", "#\\tab", "#\\(", "#\\)", "#\;", "#\\\"", "#\\|", "#\\\\", "#\\x", "#\\#",
          "#\\x41", "#\\x3bb", "#\\'", "#\\.", "#\\x0"]
@@ -25,8 +27,15 @@ BOOLS = ["#t", "#f"]
 def gen(rng, d, reals):
     r = rng.random()
     if d <= 0 or r < 0.35:
-        pools = [INTS, RATS, CHARS, SYMS, BOOLS, ["'()"]] + ([REALS[:-1]] if reals else [])
-        return rng.choice(rng.choice(pools))
+        pools = [INTS, RATS, CHARS, SYMS, BOOLS, ["'()"]] + ([REALS[:-1], ["computed"]] if reals else [])
+        c = rng.choice(rng.choice(pools))
+        if c == "computed":
+            # reals of arbitrary bit patterns, obtained by arithmetic (their text comes from the real Display)
+            a, b = rng.randrange(-10**6, 10**6), rng.randrange(1, 10**6)
+            return rng.choice(["(/ %d %d.0)" % (a, b), "(sqrt %d)" % abs(a), "(* %d 1e%d)" % (a, rng.randrange(-40, 33)),
+                               "(/ %d.5 3)" % a, "(exp %d)" % rng.randrange(-80, 80), "(* 1.7014117e38 %d)" % rng.choice([2, -2]),
+                               "(* 5.877472e-39 %d)" % rng.choice([2, -2, 1])])
+        return c
     if r < 0.6:
         return "(list %s)" % " ".join(gen(rng, d - 1, reals) for _ in range(rng.randrange(0, 5)))
     if r < 0.75:
@@ -55,6 +64,9 @@ def run(rep, tier, rng):
         a, b = impl.get(cid, []), model.get(cid, [])
         rep.count()
         if len(a) != 3:
+            if cid.startswith("a"):
+                rep.violation({"what": "an atom of the readable vocabulary (a literal that is the printed form of a value) does not evaluate",
+                               "expression": f[1], "implementation": a})
             continue
         text, val, back = a[0][2:], a[1][2:], a[2]
         rep.nontrivial(val)
